@@ -178,6 +178,9 @@ func NewPrivateKeyFromInt(key *big.Int) (*PrivateKey, error) {
 	if key == nil {
 		return nil, errors.New("sm2: private key is nil")
 	}
+	if key.Sign() < 0 || key.BitLen() > p256().N.BitLen() {
+		return nil, errInvalidPrivateKey
+	}
 	keyBytes := make([]byte, p256().N.Size())
 	return NewPrivateKey(key.FillBytes(keyBytes))
 }
